@@ -21,7 +21,7 @@ import pytz
 from acnportal.acndata import DataClient
 from acnportal.acndata.utils import http_date, parse_http_date, parse_dates
 
-from mc.core import Acc
+from mc.core import Acc, guard
 from mc.transport import FakeServer, MultiServer, owned_requests
 
 ID = "C20"
@@ -159,6 +159,7 @@ def run_pages(item, only=None):
                     if len(got) > n + 3:
                         break
         except Exception as exc:
+            guard(exc)
             rep("pages:exception:%s" % type(exc).__name__, "get_sessions over pages %s raised %r" % (sizes, exc), repr(exc), None, ctx)
             continue
         ids = [d.get("_id") for d in got]
@@ -236,6 +237,7 @@ def run_pages(item, only=None):
                 except ValueError:
                     pass
                 except Exception as exc:
+                    guard(exc)
                     rep("site:wrong-exception", "site %r raised %r" % (bad, exc), repr(exc), "ValueError", {"invalid": True})
                 if server.log:
                     rep("site:request-before-rejection", "site %r: %d request(s) sent before the rejection" % (bad, len(server.log)), len(server.log), 0, {"invalid": True})
@@ -245,6 +247,7 @@ def run_pages(item, only=None):
                 except ValueError:
                     pass
                 except Exception as exc:
+                    guard(exc)
                     rep("site:wrong-exception", "count_sessions(%r) raised %r" % (bad, exc), repr(exc), "ValueError", {"invalid": True})
                 if server.log:
                     rep("site:request-before-rejection", "count_sessions(%r) sent a request" % (bad,), len(server.log), 0, {"invalid": True})
@@ -273,6 +276,7 @@ def run_bytime(item, only=None):
             with owned_requests(server):
                 got = list(DataClient("tok-9").get_sessions_by_time("jpl", st, en, min_energy=me, timeseries=ts))
         except Exception as exc:
+            guard(exc)
             rep("bytime:exception:%s" % type(exc).__name__, "get_sessions_by_time raised %r" % (exc,), repr(exc), None, ctx)
             continue
         if [d["sessionID"] for d in got] != [d["sessionID"] for d in docs]:
@@ -303,6 +307,7 @@ def run_bytime(item, only=None):
                 if c != 41 or [m for m, _, _ in server.log] != ["HEAD"]:
                     rep("bytime:count", "count=True returned %r via %s" % (c, [m for m, _, _ in server.log]), c, 41, ctx)
             except Exception as exc:
+                guard(exc)
                 rep("bytime:count:exception", "count=True raised %r" % (exc,), repr(exc), None, ctx)
     stats["nt"] = True
     return viol, stats
@@ -358,6 +363,7 @@ def run_interleave(item, only=None):
                         except StopIteration:
                             got[s].append(None)
             except Exception as exc:
+                guard(exc)
                 rep("interleave:exception:%s" % type(exc).__name__, "interleaved generators raised %r" % (exc,), repr(exc), None, ctx)
                 continue
             for s in sites:
@@ -403,6 +409,7 @@ def run_times(item, only=None):
             try:
                 parse_dates(doc)
             except Exception as exc:
+                guard(exc)
                 rep("times:exception:%s" % type(exc).__name__, "parse_dates raised %r for %s" % (exc, s), repr(exc), None, {"instant": x.isoformat()})
                 continue
             check_dt(doc["connectionTime"], x, ztz, rep, zone, stats, "field")
@@ -467,6 +474,7 @@ def run_zonepair(item, only=None):
                     try:
                         parse_dates(doc)
                     except Exception as exc:
+                        guard(exc)
                         rep("times:exception:%s" % type(exc).__name__, "parse_dates raised %r for %s" % (exc, s_), repr(exc), None, {"instant": x.isoformat()})
                         break
                     ok = check_dt(doc["connectionTime"], x, zoneinfo.ZoneInfo(z), rep, z, stats, "field") and check_dt(doc["disconnectTime"], x, zoneinfo.ZoneInfo(z), rep, z, stats, "field")
